@@ -10,6 +10,7 @@ for n in sorted(os.listdir(V)):
     m = json.load(open(p))
     vs = []
     for c, r in sorted(m.get("checks_run", {}).items()):
-        if not r.get("applies", True): vs.append("%s: patch no longer applies (see meta.json)" % c)
+        if r.get("verdict_pre_fix"): vs.append("%s: %s on the pre-fix tree (the repair removed the mutated lines)" % (c, r["verdict_pre_fix"].split(" (")[0]))
+        elif not r.get("applies", True): vs.append("%s: patch no longer applies (see meta.json)" % c)
         else: vs.append("%s: %s" % (c, r.get("verdict", "?").split(" (")[0]))
     print("| %s | %s | %s | %s |" % (n, m["breaks_property"], ", ".join(f.split("/")[-1] for f in m["files_changed"]), "; ".join(vs) or "not run yet"))
